@@ -204,6 +204,19 @@ Proof.
   destruct (collect_logging w); simpl; repeat constructor.
 Qed.
 
+(** every await of the handle after the first yields the same outcome and creation time; its
+    exit time is not earlier *)
+Lemma await_idempotent : forall w late x,
+  await_handle w = Yields x ->
+  await_late w late = Yields (mkExited (returned x) (raised x) (created_at x) (exited_at x + late)).
+Proof. intros w late x H. unfold await_late. rewrite H. reflexivity. Qed.
+
+Lemma late_await_never_raises : forall w late e, await_late w late <> Raises e.
+Proof.
+  intros w late e. unfold await_late. pose proof (never_raises w e) as N.
+  destruct (await_handle w); try exact N; try discriminate.
+Qed.
+
 Lemma signals_before_exit : forall m p, p <> PReaped -> call m p = MDelivered (sig_of m).
 Proof.
   intros m p Hp. destruct m; destruct p; try congruence; reflexivity.
